@@ -4,6 +4,7 @@ CONSTANTS
   TextSyms = {"a", "*"}
   MaxP = 4
   MaxT = 5
+  MaxL = 2
   Dev = {}
 SPECIFICATION Spec
 INVARIANTS AlgoCorrect Bounded
